@@ -329,6 +329,7 @@ def index(it, st, obj: V, idx: V, node) -> V:
             eng.raise_(st, "IndexError", tag={"site": it.site(node)})
         v = wrap(obj.elem, obj.t[pos])
         if isinstance(v, VRef):
+            eng.assume(st, v.t != 0)  # lists of objects never hold None (list encoding)
             eng.assume_alive(st, v)
         return v
     if isinstance(obj, VBytes):
@@ -573,8 +574,9 @@ def symbolic_comprehension(it, st, node, gen, src: VSeq, flavour: str) -> V:
     npc = len(st.pc)
     P = eng.z_and([pure_cond(it, st, c) for c in gen.ifs]) if gen.ifs else True
     ev = pure_eval(it, st, node.elt)
-    if len(st.pc) != npc:
-        raise Unsupported("comprehension body added path constraints")
+    # facts assumed about the generic element (alive-ness etc.) mention only the bound placeholder,
+    # which is abstracted away below: drop them instead of keeping facts about a free constant
+    del st.pc[npc:]
     if flavour in ("gen", "set"):
         # consumed by any()/set(): hand back the structure
         return VGen("comp", FilterMap(src, x, P, ev, getattr(ev, "kind", "?")))
@@ -773,6 +775,36 @@ def bi_any(it, st, args, kwargs, node):
     raise Unsupported(f"{it.site(node)}: any({v!r})")
 
 
+def count_in(src_t, x, body):
+    """z3 Int: number of elements x of src with body(x) (named, unfolded over concat/unit/empty)"""
+    body = z3.simplify(body) if not isinstance(body, bool) else z3.BoolVal(body)
+    parts = _seq_parts(z3.simplify(src_t))
+    if parts[0] == "concat":
+        return z3.Sum([count_in(p, x, body) for p in parts[1]])
+    if parts[0] == "unit":
+        return z3.If(z3.substitute(body, (x, parts[1])), z3.IntVal(1), z3.IntVal(0))
+    if parts[0] == "empty":
+        return z3.IntVal(0)
+    canon, params = _abstract(body, x)
+    key = ("cnt", canon.sexpr(), str(x.sort()), tuple(str(p.sort()) for p in params))
+    f = _named_fn("cnt", key, [src_t.sort()] + [p.sort() for p in params], IntS)
+    return f(parts[1], *params)
+
+
+def bi_sum(it, st, args, kwargs, node):
+    eng = it.eng
+    v = eng.unbox(st, args[0])
+    if isinstance(v, VGen) and v.name == "comp":
+        fm = v.payload
+        if isinstance(fm.E, VBool):
+            n = count_in(fm.src.t, fm.x, z3.And(eng.z_bool(fm.P), fm.E.t))
+            eng.assume(st, z3.And(n >= 0, n <= z3.Length(fm.src.t)))
+            return VInt(n)
+    if isinstance(v, (VList, VTuple)) and all(isinstance(x, (VInt, VBool)) for x in v.items):
+        return VInt(z3.Sum([eng.coerce(st, x, "int").t for x in v.items]) if v.items else z3.IntVal(0))
+    raise Unsupported(f"{it.site(node)}: sum({v!r})")
+
+
 def bi_str(it, st, args, kwargs, node):
     eng = it.eng
     if not args:
@@ -927,6 +959,7 @@ BUILTIN_FUNCS = {
     "next": bi_next,
     "type": bi_type,
     "repr": bi_repr,
+    "sum": bi_sum,
 }
 
 BUILTIN_CLASSES = {
@@ -950,8 +983,10 @@ def call_builtin_method(it, st, recv: V, name: str, args, kwargs, node) -> V:
     if isinstance(recv, VBytes):
         if name == "decode":
             enc = const_str(args[0].t) if args else "utf-8"
-            if enc != "ascii":
+            if enc not in ("ascii", "utf-8"):
                 raise Unsupported(f"decode({enc})")
+            # instance of the ASCII round-trip law for this term (decoding is injective)
+            eng.assume(st, encode_ascii(decode_ascii(recv.t)) == recv.t)
             return VStr(decode_ascii(recv.t))
         if name == "lower":
             return VBytes(lower_b(recv.t))
@@ -1088,6 +1123,9 @@ def list_method(it, st, recv, name, args, kwargs, node):
     eng = it.eng
     target = node.func.value  # ast of the receiver
 
+    def note(op, value=None):
+        it.emit(st, "list." + op, node, target=ast.unparse(target), value=value, held=list(st.held), before=recv)
+
     def writeback(newv):
         loc = getattr(recv, "loc", None)
         if loc is not None and loc[0] == "heapdict":
@@ -1097,6 +1135,7 @@ def list_method(it, st, recv, name, args, kwargs, node):
 
     if name == "append":
         x = args[0]
+        note("append", x)
         if isinstance(recv, VList):
             writeback(VList(recv.items + [x]))
         else:
@@ -1110,6 +1149,7 @@ def list_method(it, st, recv, name, args, kwargs, node):
         if isinstance(recv, VList):
             raise Unsupported("remove on concrete list")
         xv = eng.coerce(st, x, recv.elem)
+        note("remove", x)
         present = z3.Contains(recv.t, z3.Unit(xv.t))
         if not eng.branch(st, present, f"remove-present@{node.lineno}"):
             eng.raise_(st, "ValueError", tag={"site": it.site(node), "why": "list.remove(x): x not in list"})
